@@ -101,7 +101,7 @@ def h_rest_glue_internal_persistence_model_status_go : Nat := 0xa99de046e51c60df
 def h_rest_glue_internal_persistence_model_node_go : Nat := 0x42fc9e336bdfd1bb
 
 /-- hash of the normalised skeleton of * (internal/util/utils.go) -/
-def h_rest_glue_internal_util_utils_go : Nat := 0xc3f9af02445341ee
+def h_rest_glue_internal_util_utils_go : Nat := 0xd121931bb1e443f4
 
 /-- hash of the normalised skeleton of * (internal/sock/client.go) -/
 def h_rest_glue_internal_sock_client_go : Nat := 0xbde387884a65c0fd
